@@ -10,7 +10,14 @@
    The literal statement ("after ANY sequence of adds, deletes, renames incl.
    swaps, kind changes ... the remote equals the tree") is FALSE of the code:
    see the _refuted theorems (each witness was replayed on the real uploader).
-   It holds under the executable guard [upload_guard] (Theory/UploadExact.v). *)
+   It holds under the executable guard [upload_guard] (Theory/UploadExact.v).
+
+   After the repair round (46295b6, c541353, e87df2d, 5c5eacc) the model is the
+   repaired uploader: the guard no longer excludes renames combined with a
+   chmod / kind change / new symlink target, renames onto the path of a removed
+   directory, kind changes below a renamed directory and symlinks below the
+   root or with a modified target (C43_repaired_witnesses_guarded); the
+   remaining refutations are the residue of the rename ordering. *)
 From Coq Require Import NArith List Bool.
 From BV Require Import Lib.Bytes Lib.FS43 Model.Upload
   Theory.UploadMoves Theory.UploadPhases Theory.UploadRenames Theory.UploadItems
@@ -86,47 +93,38 @@ Proof.
 Qed.
 Print Assumptions C43_guard_examples.
 
-(* --- the unguarded statement is false: valid trees old, new such that the
-   incremental upload from a remote holding exactly old raises, or ends
-   normally with a remote different from new *)
-(* rename + chmod: the exec bit is silently lost *)
-Theorem C43_incremental_exact_refuted : incr_refuted w_exec_old w_exec_new.
-Proof. exact refuted_rename_exec. Qed.
-Print Assumptions C43_incremental_exact_refuted.
-(* rename + kind change: an empty file instead of the directory, silently *)
-Theorem C43_rename_kind_change_refuted : incr_refuted w_exec_old w_kind_new.
-Proof. exact refuted_rename_kind. Qed.
-Print Assumptions C43_rename_kind_change_refuted.
-(* rename + new symlink target: an empty file instead of the symlink, silently *)
-Theorem C43_rename_retarget_refuted : incr_refuted w_retarget_old w_retarget_new.
-Proof. exact refuted_rename_retarget. Qed.
-Print Assumptions C43_rename_retarget_refuted.
+(* the witnesses of the repaired defects are now instances of the guarded theorem *)
+Theorem C43_repaired_witnesses_guarded :
+  upload_guard w_exec_old w_exec_new = true /\          (* rename + chmod *)
+  upload_guard w_exec_old w_kind_new = true /\          (* rename + kind change *)
+  upload_guard w_retarget_old w_retarget_new = true /\  (* rename + new symlink target *)
+  upload_guard w_onto_old w_onto_new = true /\          (* rename onto a removed directory *)
+  upload_guard w_nested_old w_kcsub_new = true /\       (* kind change below a renamed directory *)
+  upload_guard w_lnsub_old w_lnsub_new = true /\        (* symlink added below the root *)
+  upload_guard w_retarget_old w_lnmod_new = true.       (* symlink target modified *)
+Proof. exact repaired_witnesses_guard. Qed.
+Print Assumptions C43_repaired_witnesses_guarded.
+
+(* --- the unguarded statement is still false (residue of C43-rename-staging-order):
+   valid trees old, new such that the incremental upload from a remote holding
+   exactly old raises *)
 (* a directory and an entry in it renamed by the same revision: NoSuchFile *)
-Theorem C43_nested_rename_refuted : incr_refuted w_nested_old w_nested_new.
+Theorem C43_incremental_exact_refuted : incr_refuted w_nested_old w_nested_new.
 Proof. exact refuted_nested_rename. Qed.
-Print Assumptions C43_nested_rename_refuted.
+Print Assumptions C43_incremental_exact_refuted.
 (* an entry moved into a directory added by the same revision: NoSuchFile *)
 Theorem C43_rename_into_new_dir_refuted : incr_refuted w_exec_old w_newdir_new.
 Proof. exact refuted_rename_into_new_dir. Qed.
 Print Assumptions C43_rename_into_new_dir_refuted.
-(* a directory renamed onto the path of a removed directory: it is deleted, silently *)
-Theorem C43_rename_onto_removed_dir_refuted : incr_refuted w_onto_old w_onto_new.
-Proof. exact refuted_rename_onto_removed_dir. Qed.
-Print Assumptions C43_rename_onto_removed_dir_refuted.
-(* kind change / removed sub-directory below a renamed directory: NoSuchFile *)
-Theorem C43_kind_change_under_rename_refuted : incr_refuted w_nested_old w_kcsub_new.
-Proof. exact refuted_kind_change_under_rename. Qed.
-Print Assumptions C43_kind_change_under_rename_refuted.
+(* removed non-empty sub-directory below a renamed directory: NoSuchFile *)
 Theorem C43_removed_subdir_under_rename_refuted : incr_refuted w_rmsub_old w_rmsub_new.
 Proof. exact refuted_removed_subdir_under_rename. Qed.
 Print Assumptions C43_removed_subdir_under_rename_refuted.
-(* symlinks: added below the root -> InvalidURL; target modified -> FileExists *)
-Theorem C43_symlink_in_subdir_refuted : incr_refuted w_lnsub_old w_lnsub_new.
-Proof. exact refuted_symlink_in_subdir. Qed.
-Print Assumptions C43_symlink_in_subdir_refuted.
-Theorem C43_symlink_modified_refuted : incr_refuted w_retarget_old w_lnmod_new.
-Proof. exact refuted_symlink_modified. Qed.
-Print Assumptions C43_symlink_modified_refuted.
+(* renamed directory turned into a file while a non-empty sub-directory of it is
+   removed: its deferred rmdir runs first: DirectoryNotEmpty *)
+Theorem C43_recreated_dir_deferred_subdir_refuted : incr_refuted w_rmsub_old w_recdir_new.
+Proof. exact refuted_recreated_dir_deferred_subdir. Qed.
+Print Assumptions C43_recreated_dir_deferred_subdir_refuted.
 
 (* --- full upload: exact on an empty remote (ignored paths and the ignore
    file itself are not uploaded); the side condition is about the environment's
@@ -149,18 +147,12 @@ Proof. exact full_ok_example. Qed.
 Print Assumptions C43_full_ok_example.
 
 (* on a remote that already holds another tree a full upload is not exact:
-   stale files stay; a symlink cannot replace a regular file *)
+   stale files stay (by design) *)
 Theorem C43_full_exact_refuted :
   exists old new, valid_tree old = true /\ valid_tree new = true /\
     forall k, ~ exact_run (run (upload_full new k) (ust0 (fs_of old))) new.
 Proof. exact refuted_full_keeps_stale. Qed.
 Print Assumptions C43_full_exact_refuted.
-Theorem C43_full_symlink_over_file_refuted :
-  exists old new, valid_tree old = true /\ valid_tree new = true /\
-    forall k, ~ exact_run (run (upload_full new k) (ust0 (fs_of old))) new.
-Proof. exact refuted_full_symlink_over_file. Qed.
-Print Assumptions C43_full_symlink_over_file_refuted.
-
 (* --- ignored paths and the marker.  ANY program of uploader commands (so:
    incremental and full, all trees, no guard), any remote, normal or
    exceptional end: nothing changes outside the sub-trees rooted at the paths
@@ -173,12 +165,11 @@ Proof. exact upload_frame. Qed.
 Print Assumptions C43_ignored_and_marker_untouched.
 
 (* ... and the incremental upload names only: the marker, paths that are not
-   ignored, the two ends of a rename that crosses the ignore boundary, and the
-   old path of a kind change whose new path is not ignored *)
+   ignored, and the two ends of a rename that crosses the ignore boundary *)
 Theorem C43_operands_not_ignored :
   forall old new k r,
   In r (flat_map cmd_roots (upload_incremental old new k)) ->
-  r = [NMark] \/ is_ignored new r = false \/ boundary old new r \/ kc_boundary old new r.
+  r = [NMark] \/ is_ignored new r = false \/ boundary old new r.
 Proof. exact incr_roots_spec. Qed.
 Print Assumptions C43_operands_not_ignored.
 
